@@ -242,10 +242,13 @@ def apply_rewrite(root, spec):
     if not m:
         return False, "bad spec"
     rel, old, new = m.group(1), m.group(2), m.group(3)
+    old, new = old.replace("\\n", "\n"), new.replace("\\n", "\n")
     path = os.path.join(root, rel)
     if not os.path.isfile(path):
         return False, "file missing"
     text = open(path).read()
+    if old not in text and new in text:
+        return True, ""  # already applied by another harness file of this run
     if old not in text:
         return False, "anchor text not found (source changed)"
     text = text.replace(old, new)
